@@ -1,7 +1,43 @@
 """C12: supervisor-core property, decided on the Sup model (coq/theories/Sup, Props/C12.v) with the
-controlled-scheduling harness (harness/cmd/sup).  See lib/supcheck.py."""
+controlled-scheduling harness (harness/cmd/sup).  See lib/supcheck.py.
+
+Plus fault cases the model has no event for (harness/cmd/c12f): the stop signal of a DEPENDENT cannot be delivered
+(Commander.Stop returns an error, the command lives on for a while).  Free-running ordered shutdown over the real
+ProjectRunner with fake commands; oracle = the property text (a dependency is signalled only when its dependents'
+commands are no longer alive).  A test-level oracle, no theorem covers it."""
+import json
 import supcheck
+import vcheck as V
+
+
+def fault_cases(ctx):
+    ok, binp, log = V.build_harness("c12f")
+    if not ok:
+        ctx.broken_build("harness-build c12f (-tags verif) against current /repo tree", log)
+        return
+    d = ctx.rundir / "c12f"
+    d.mkdir(exist_ok=True)
+    n = 12 if ctx.tier == "quick" else 60
+    rc, out = V.sh([str(binp), "-out", str(d), "-n", str(n), "-seed", str(ctx.seed)], timeout=1200)
+    if rc != 0:
+        ctx.broken_build("c12f run", out)
+        return
+    cases = json.load(open(d / "cases_C12f.json"))
+    bad = [c for c in cases if c.get("violations")]
+    errs = [c for c in cases if c.get("err")]
+    ctx.extra_cov = {"fault_cases_stop_error": {"cases": len(cases), "with_a_failing_stop": sum(1 for c in cases if c.get("fail_stop")),
+                                                "violating": len(bad), "not_run": len(errs),
+                                                "oracle": "dependency signalled only when no dependent command is alive (test-level, no theorem)"}}
+    if bad:
+        c = bad[0]
+        ctx.violation({"kind": "ordered-shutdown-with-failing-stop", "case": c, "cases": bad[:20],
+                       "how_to_rerun": "build/bin/c12f -out <dir> -seed %d -n %d" % (ctx.seed, n)},
+                      "ordered shutdown, stop signal of a dependent not deliverable: %s (%d of %d fault cases)"
+                      % (c["violations"][0], len(bad), len(cases)))
+    if errs:
+        ctx.broken_build("c12f: %d fault cases could not be run" % len(errs), errs[0].get("err", ""))
 
 
 def run(ctx):
+    fault_cases(ctx)
     supcheck.run(ctx, "C12", kinds="shutdown,deps,api,ordered", n_quick=160, n_thorough=1600)
